@@ -147,7 +147,7 @@ func mkOperands(r *rand.Rand) []*apd.Decimal {
 			}
 		case 5:
 			// small destination grown in place
-			d.SetInt64(int64(1 + r.Intn(1 << 30)))
+			d.SetInt64(int64(1 + r.Intn(1<<30)))
 			var y apd.Decimal
 			y.SetString(digitsStr(25 + r.Intn(30)))
 			big.Mul(d, d, &y)
